@@ -40,8 +40,13 @@ def tol_for(name, fn):
 
 def shapes_of(vals):
     arr = numpy.array(vals, dtype=float)
+    n = len(arr)
+    # element orders: the values of an array do not depend on one another, whatever their order
+    rotated = numpy.concatenate([arr[n // 2:], arr[:n // 2]])
+    shuffled = arr[[(5 * i + 3) % n for i in range(n)]] if n == 7 else arr[::-1]
+    desc_rep = numpy.concatenate([[arr[-1], arr[-1]], arr[::-1][2:]])
     return [('float', float(vals[2])), ('np.float64', numpy.float64(vals[3])), ('0-d', numpy.array(vals[1])), ('1-d', arr),
-            ('1-d with 0', numpy.concatenate([[0.0], arr]))]
+            ('1-d with 0', numpy.concatenate([[0.0], arr])), ('1-d rotated', rotated), ('1-d shuffled', shuffled), ('1-d descending with a repeat', desc_rep)]
 
 
 def both_ranges(m, name, params):
